@@ -33,14 +33,14 @@ pub proof fn lemma_insert_reached<P: Prefix, T>(m0: PrefixMap<P, T>, m1: PrefixM
 {
     let t0 = m0.tab(); let t1 = m1.tab(); let l0 = m0.live();
     assert(m1.live() =~= l0);
-    let par = choose|par: spec_fn(int) -> int| tloc(t0, l0, par);
+    let par = lemma_twf_par(t0, l0);
     lemma_glob(t0, l0);
     assert forall|j: int| 0 <= j < t0.len() implies #[trigger] same_shape_at(t0, t1, j) by {
         if j != idx { assert(t1[j] == t0[j]); }
     }
     lemma_relink_same(t0, l0, par, t1);
     assert(tloc(t1, l0, par));
-    assert(twf_live(t1, m1.live()));
+    lemma_twf_intro(t1, m1.live());
     // count
     assert forall|i: int| 0 <= i && i != idx implies ind(t0, l0, i) == ind(t1, l0, i) by {
         if l0.contains(i) { assert(t1[i] == t0[i]); }
@@ -122,11 +122,11 @@ pub proof fn lemma_insert_leaf<P: Prefix, T>(m0: PrefixMap<P, T>, m1: PrefixMap<
         m1.wf_shape(), m1.wf_count(), ins_content(m0, m1, p, v), !m0.content().dom().contains(p.bits()),
 {
     let t0 = m0.tab(); let t1 = m1.tab(); let l0 = m0.live();
-    let par = choose|par: spec_fn(int) -> int| tloc(t0, l0, par);
+    let par = lemma_twf_par(t0, l0);
     p.lemma_len();
     lemma_frame_nodes_shape(t0, t1, idx, new, new);
     lemma_relink_leaf(t0, l0, par, t1, idx, new, s);
-    assert(twf_live(t1, l0.insert(new)));
+    lemma_twf_intro(t1, l0.insert(new));
     assert(l0.insert(new).insert(new) =~= l0.insert(new));
     lemma_insert_new_common(m0, m1, idx, new, new, p, v);
 }
@@ -148,13 +148,13 @@ pub proof fn lemma_insert_child<P: Prefix, T>(m0: PrefixMap<P, T>, m1: PrefixMap
         m1.wf_shape(), m1.wf_count(), ins_content(m0, m1, p, v), !m0.content().dom().contains(p.bits()),
 {
     let t0 = m0.tab(); let t1 = m1.tab(); let l0 = m0.live();
-    let par = choose|par: spec_fn(int) -> int| tloc(t0, l0, par);
+    let par = lemma_twf_par(t0, l0);
     p.lemma_len();
     lemma_glob(t0, l0);
     assert(child_ok(t0, l0, idx, s));
     lemma_frame_nodes_shape(t0, t1, idx, new, new);
     lemma_relink_child(t0, l0, par, t1, idx, new, s, c, cs);
-    assert(twf_live(t1, l0.insert(new)));
+    lemma_twf_intro(t1, l0.insert(new));
     assert(l0.insert(new).insert(new) =~= l0.insert(new));
     lemma_insert_new_common(m0, m1, idx, new, new, p, v);
 }
@@ -184,7 +184,7 @@ pub proof fn lemma_insert_branch<P: Prefix, T>(m0: PrefixMap<P, T>, m1: PrefixMa
         m1.wf_shape(), m1.wf_count(), ins_content(m0, m1, p, v), !m0.content().dom().contains(p.bits()),
 {
     let t0 = m0.tab(); let t1 = m1.tab(); let l0 = m0.live();
-    let par = choose|par: spec_fn(int) -> int| tloc(t0, l0, par);
+    let par = lemma_twf_par(t0, l0);
     p.lemma_len();
     lemma_glob(t0, l0);
     assert(child_ok(t0, l0, idx, s));
@@ -199,6 +199,6 @@ pub proof fn lemma_insert_branch<P: Prefix, T>(m0: PrefixMap<P, T>, m1: PrefixMa
     assert(spre(ki, b));
     lemma_frame_nodes_shape(t0, t1, idx, new, br);
     lemma_relink_branch(t0, l0, par, t1, idx, br, new, s, c, ps);
-    assert(twf_live(t1, l0.insert(br).insert(new)));
+    lemma_twf_intro(t1, l0.insert(br).insert(new));
     lemma_insert_new_common(m0, m1, idx, new, br, p, v);
 }
